@@ -139,6 +139,11 @@ def run(tier):
             for e in ("[%s+%s*%d]" % (base, idx, s), "[%s+%d*%s]" % (base, s, idx), "[%d*%s]" % (s, idx), "[%s+%s*%d+8]" % (base, idx, s), "[%s+%d*%s-0x100]" % (base, s, idx)):
                 for t in MEMT:
                     bad.append(("scale", t % e, {"scale": s, "index": idx, "tmpl": t}))
+    # scale SPELLINGS: zero-padded and hexadecimal factors; nasm referees (it reads 010 as ten and rejects it, 0x4 or 02 are fine)
+    for sc in ("010", "0010", "00010", "011", "012", "016", "03", "05", "0x3", "0x10", "0x0a", "1e1", "10b", "8d", "2h", "+2", "-2", "2.0"):
+        for e in ("[rbx+rcx*%s]" % sc, "[rbx+%s*rcx]" % sc, "[%s*rcx]" % sc, "[rbx+rcx*%s-8]" % sc, "[ebx+ecx*%s]" % sc):
+            for t in (MEMT if full else MEMT[:6] + rnd.sample(MEMT, 3)):
+                bad.append(("scale", t % e, {"scale": sc, "index": "rcx", "tmpl": t}))
     for sp, fam in (("rsp", R64), ("esp", R32)):
         exprs = []
         for s in (1, 2, 4, 8):
